@@ -116,12 +116,12 @@ def run_c20(rnd, tier, v, stats):
             exp = sorted((m, vid) for m in memos)
             if err or got != exp:
                 cls = ""
-                if curt:
-                    cls = "binary-header-gram-count"
+                if not err and len(order) > len(grams) and set(got) == set(exp) and len(got) > len(exp):
+                    cls = "duplicate-after-delivery"
                 elif signed and order != grams:
                     cls = "signed-non-zeroth-gram-before-zeroth"
-                elif not err and len(order) > len(grams) and set(got) == set(exp) and len(got) > len(exp):
-                    cls = "duplicate-after-delivery"
+                elif curt:
+                    cls = "binary-header-gram-count"
                 v("C20/memos-not-reconstructed-exactly-once", dict(inp, order="in-order" if order == grams else ("reversed" if order == list(reversed(grams)) else "shuffled/dup"), witness_class=cls),
                   dict(got=[(m[:20], vd) for m, vd in got], err=err), [(m[:20], vd) for m, vd in exp])
                 break
